@@ -48,6 +48,13 @@ TWO_Q_SYM = ["SWAP", "ISWAP", "SQRTSWAP", "SQRTISWAP", "BERKELEY"]
 ANGLES = [0.25, 0.5, 0.75, 1.25, -0.5, 2.0]
 
 
+def generate(ctx):
+    """Props/C11.v states the dependency clause against physical non-commutation (Proofs/SchedReal.v), which depends on
+    the gate matrices of Gen/Gates.v (regenerated here from the current sources)."""
+    from translate import gates_tr
+    gates_tr.generate()
+
+
 def rand_gate(rng, N, kinds=None):
     """A library gate placed on distinct qubits < N, as a JSON-able spec."""
     pool = kinds or (
